@@ -393,7 +393,13 @@ theorem occInc_good (hG : G.Good) (k : Nat) : occInc G k = k := by simp [occInc,
 def IsInstEx (cls : Text) (fs : Fields) (v : Val) : Prop :=
   ∃ vals, v = .obj cls vals ∧ conformsFields fs vals = true
 
+/-- hypotheses of the exactness induction: bytes text is length-checked, and no class opts out of the occurrence check -/
+structure ExHyp (G : Facts02) (cfg : Cfg) : Prop where
+  bint : G.binTextValidated = true
+  nf : cfg.noFreq = []
+
 theorem finish_ex (cls : Text) (fs : Fields) (a : Acc) (hwf : wfFields fs = true) (h5 : c05Fields fs = true)
+    (hnf : cfg.noFreq = [])
     (h : cfg.soft = true → AccEx fs a) : Safe cfg (IsInstEx cls fs) (finish cfg cls fs a) := by
   unfold finish
   split
@@ -402,7 +408,7 @@ theorem finish_ex (cls : Text) (fs : Fields) (a : Acc) (hwf : wfFields fs = true
     refine Safe.good (fun hs => ⟨_, rfl, conformsFields_of_acc fs a hwf h5 (h hs) ?_⟩)
     cases hf : checkFreq fs a with
     | true => rfl
-    | false => exact absurd (by simp [hs, hf]) hc
+    | false => exact absurd (by simp [hs, hf, hnf]) hc
 
 theorem put_ex (hG : G.Good) (fs : Fields) (a : Acc) (n : Text) (t : Ty) (x : Val)
     (ha : cfg.soft = true → AccEx fs a) (hl : lookupField fs n = some t) (hr : t.occ.repeated = false)
@@ -483,9 +489,9 @@ theorem ex_obj (n ns : Text) (b : Option Text) (fs : Fields) (o : Occ) (v : Val)
   unfold Ex; simp [conformsOne, hv]
 
 mutual
-  theorem flatOne_ex (L : LeafLaws F) (hG : G.Good) (hb : G.binTextValidated = true) : ∀ (t : Ty), wfTy t = true → c05Ty t = true → FlatEx F G cfg t
+  theorem flatOne_ex (L : LeafLaws F) (hG : G.Good) (hb : ExHyp G cfg) : ∀ (t : Ty), wfTy t = true → c05Ty t = true → FlatEx F G cfg t
     | .prim p o, _, _ => by
-      intro d; simp only [flatOne]; exact primIn_ex L hG hb p o d
+      intro d; simp only [flatOne]; exact primIn_ex L hG hb.bint p o d
     | .arr m e o, hwf, h5 => by
       have hwe : wfTy e = true := by simp [wfTy] at hwf; exact hwf.2
       have h5e : c05Ty e = true := by simp [c05Ty] at h5; exact h5.2
@@ -504,15 +510,15 @@ mutual
       case str s =>
         split
         · exact Safe.mono (Safe.bind (flatFields_ex hG fields fields [] _ _ ihf (by simp) hw.1 (fun _ => accEx_init fields))
-            (fun a ha => finish_ex n fields a hw.2 h5f ha)) (ex_obj n ns b fields o)
+            (fun a ha => finish_ex n fields a hw.2 h5f hb.nf ha)) (ex_obj n ns b fields o)
         · exact Safe.fault'
       case bytes bs =>
         split
         · exact Safe.mono (Safe.bind (flatFields_ex hG fields fields [] _ _ ihf (by simp) hw.1 (fun _ => accEx_init fields))
-            (fun a ha => finish_ex n fields a hw.2 h5f ha)) (ex_obj n ns b fields o)
+            (fun a ha => finish_ex n fields a hw.2 h5f hb.nf ha)) (ex_obj n ns b fields o)
         · exact Safe.fault'
 
-  theorem flatFieldsEx (L : LeafLaws F) (hG : G.Good) (hb : G.binTextValidated = true) : ∀ (fs : Fields), wfFields fs = true → c05Fields fs = true →
+  theorem flatFieldsEx (L : LeafLaws F) (hG : G.Good) (hb : ExHyp G cfg) : ∀ (fs : Fields), wfFields fs = true → c05Fields fs = true →
       ∀ nt ∈ fs, FlatEx F G cfg nt.2
     | [], _, _ => by intro nt h; cases h
     | (n, t) :: r, hwf, h5 => by
@@ -548,11 +554,11 @@ theorem resolveClass_nil (name : Text) (fs : Fields) (key : Option Text) :
   · simp [subclassesOf]
 
 mutual
-  theorem decode_ex (L : LeafLaws F) (hG : G.Good) (hb : G.binTextValidated = true) : ∀ (d : Doc) (t : Ty), wfTy t = true → c05Ty t = true →
+  theorem decode_ex (L : LeafLaws F) (hG : G.Good) (hb : ExHyp G cfg) : ∀ (d : Doc) (t : Ty), wfTy t = true → c05Ty t = true →
       Safe cfg (Ex t) (decode F G cfg [] t d)
     | .list ds, t, hwf, h5 => by
       cases t with
-      | prim p o => simp only [decode]; exact primIn_ex L hG hb p o _
+      | prim p o => simp only [decode]; exact primIn_ex L hG hb.bint p o _
       | arr m e o =>
         have hwe : wfTy e = true := by simp [wfTy] at hwf; exact hwf.2
         have h5e : c05Ty e = true := by simp [c05Ty] at h5; exact h5.2
@@ -565,11 +571,11 @@ mutual
         simp only [decode]
         split
         · exact Safe.mono (Safe.bind (decodePos_ex L hG hb ds fields [] fields (initAcc fields) (by simp) hw.1 hw.2 h5f
-              (fun _ => accEx_init fields)) (fun a ha => finish_ex n fields a hw.2 h5f ha)) (ex_obj n ns b fields o)
+              (fun _ => accEx_init fields)) (fun a ha => finish_ex n fields a hw.2 h5f hb.nf ha)) (ex_obj n ns b fields o)
         · exact Safe.fault'
     | .map kvs, t, hwf, h5 => by
       cases t with
-      | prim p o => simp only [decode]; exact primIn_ex L hG hb p o _
+      | prim p o => simp only [decode]; exact primIn_ex L hG hb.bint p o _
       | arr m e o =>
         have hwe : wfTy e = true := by simp [wfTy] at hwf; exact hwf.2
         have h5e : c05Ty e = true := by simp [c05Ty] at h5; exact h5.2
@@ -582,7 +588,7 @@ mutual
         simp only [decode]
         split
         · exact Safe.mono (Safe.bind (decodeKvs_ex L hG hb kvs fields (initAcc fields) hw.2 h5f (fun _ => accEx_init fields))
-              (fun a ha => finish_ex n fields a hw.2 h5f ha)) (ex_obj n ns b fields o)
+              (fun a ha => finish_ex n fields a hw.2 h5f hb.nf ha)) (ex_obj n ns b fields o)
         · exact decodeWrapped_ex L hG hb kvs n ns b fields o hwf h5
     | .null, t, hwf, h5 => by simp only [decode]; exact flatOne_ex L hG hb t hwf h5 _
     | .bool _, t, hwf, h5 => by simp only [decode]; exact flatOne_ex L hG hb t hwf h5 _
@@ -593,7 +599,7 @@ mutual
     | .str _, t, hwf, h5 => by simp only [decode]; exact flatOne_ex L hG hb t hwf h5 _
     | .bytes _, t, hwf, h5 => by simp only [decode]; exact flatOne_ex L hG hb t hwf h5 _
 
-  theorem decodeWrapped_ex (L : LeafLaws F) (hG : G.Good) (hb : G.binTextValidated = true) : ∀ (kvs : List (Key × Doc)) (n ns : Text) (b : Option Text)
+  theorem decodeWrapped_ex (L : LeafLaws F) (hG : G.Good) (hb : ExHyp G cfg) : ∀ (kvs : List (Key × Doc)) (n ns : Text) (b : Option Text)
       (fields : Fields) (o : Occ), wfTy (.obj n ns b fields o) = true → c05Ty (.obj n ns b fields o) = true →
       Safe cfg (Ex (.obj n ns b fields o)) (decodeWrapped F G cfg [] n fields o kvs)
     | [], n, ns, b, fields, o, _, _ => by
@@ -618,17 +624,17 @@ mutual
     | _ :: _ :: _, n, ns, b, fields, o, _, _ => by
       simp only [decodeWrapped]; exact Safe.fault'
 
-  theorem decodeBody_ex (L : LeafLaws F) (hG : G.Good) (hb : G.binTextValidated = true) : ∀ (d : Doc) (cls : Text) (fs : Fields),
+  theorem decodeBody_ex (L : LeafLaws F) (hG : G.Good) (hb : ExHyp G cfg) : ∀ (d : Doc) (cls : Text) (fs : Fields),
       namesDistinct (fs.map (·.1)) = true → wfFields fs = true → c05Fields fs = true →
       Safe cfg (IsInstEx cls fs) (decodeBody F G cfg [] cls fs d)
     | .map kvs, cls, fs, _, hwf, h5 => by
       simp only [decodeBody]
       exact Safe.bind (decodeKvs_ex L hG hb kvs fs (initAcc fs) hwf h5 (fun _ => accEx_init fs))
-        (fun a ha => finish_ex cls fs a hwf h5 ha)
+        (fun a ha => finish_ex cls fs a hwf h5 hb.nf ha)
     | .list ds, cls, fs, hd, hwf, h5 => by
       simp only [decodeBody]
       exact Safe.bind (decodePos_ex L hG hb ds fs [] fs (initAcc fs) (by simp) hd hwf h5 (fun _ => accEx_init fs))
-        (fun a ha => finish_ex cls fs a hwf h5 ha)
+        (fun a ha => finish_ex cls fs a hwf h5 hb.nf ha)
     | .null, cls, fs, hd, hwf, h5 => by simp only [decodeBody, flatBody, iterFlat]; exact Safe.fault'
     | .bool _, cls, fs, hd, hwf, h5 => by simp only [decodeBody, flatBody, iterFlat]; exact Safe.fault'
     | .int _, cls, fs, hd, hwf, h5 => by simp only [decodeBody, flatBody, iterFlat]; exact Safe.fault'
@@ -638,13 +644,13 @@ mutual
     | .str s, cls, fs, hd, hwf, h5 => by
       simp only [decodeBody, flatBody, iterFlat]
       exact Safe.bind (flatFields_ex hG fs fs [] _ _ (flatFieldsEx L hG hb fs hwf h5) (by simp) hd (fun _ => accEx_init fs))
-        (fun a ha => finish_ex cls fs a hwf h5 ha)
+        (fun a ha => finish_ex cls fs a hwf h5 hb.nf ha)
     | .bytes bs, cls, fs, hd, hwf, h5 => by
       simp only [decodeBody, flatBody, iterFlat]
       exact Safe.bind (flatFields_ex hG fs fs [] _ _ (flatFieldsEx L hG hb fs hwf h5) (by simp) hd (fun _ => accEx_init fs))
-        (fun a ha => finish_ex cls fs a hwf h5 ha)
+        (fun a ha => finish_ex cls fs a hwf h5 hb.nf ha)
 
-  theorem decodeItems_ex (L : LeafLaws F) (hG : G.Good) (hb : G.binTextValidated = true) : ∀ (ds : List Doc) (t : Ty), wfTy t = true → c05Ty t = true →
+  theorem decodeItems_ex (L : LeafLaws F) (hG : G.Good) (hb : ExHyp G cfg) : ∀ (ds : List Doc) (t : Ty), wfTy t = true → c05Ty t = true →
       Safe cfg (fun l => ∀ y ∈ l, Ex t y) (decodeItems F G cfg [] t ds)
     | [], t, _, _ => by simp only [decodeItems]; exact Safe.good (fun _ => by simp)
     | d :: ds, t, hwf, h5 => by
@@ -660,7 +666,7 @@ mutual
         · exact hv hs
         · exact hvs hs y hy)
 
-  theorem decodeKvs_ex (L : LeafLaws F) (hG : G.Good) (hb : G.binTextValidated = true) : ∀ (kvs : List (Key × Doc)) (fs : Fields) (a : Acc),
+  theorem decodeKvs_ex (L : LeafLaws F) (hG : G.Good) (hb : ExHyp G cfg) : ∀ (kvs : List (Key × Doc)) (fs : Fields) (a : Acc),
       wfFields fs = true → c05Fields fs = true → (cfg.soft = true → AccEx fs a) →
       Safe cfg (fun a' => AccEx fs a') (decodeKvs F G cfg [] fs kvs a)
     | [], fs, a, _, _, ha => by simp only [decodeKvs]; exact Safe.good ha
@@ -698,7 +704,7 @@ mutual
               | _ => exact repeatedScalar_safe hG _
             exact Safe.bind items (fun vs hvs => putItems_ex hG fs a n t vs ha hl hr hvs)
 
-  theorem decodePos_ex (L : LeafLaws F) (hG : G.Good) (hb : G.binTextValidated = true) : ∀ (ds : List Doc) (all pre fs : Fields) (a : Acc),
+  theorem decodePos_ex (L : LeafLaws F) (hG : G.Good) (hb : ExHyp G cfg) : ∀ (ds : List Doc) (all pre fs : Fields) (a : Acc),
       all = pre ++ fs → namesDistinct (all.map (·.1)) = true → wfFields fs = true → c05Fields fs = true →
       (cfg.soft = true → AccEx all a) →
       Safe cfg (fun a' => AccEx all a') (decodePos F G cfg [] all fs ds a)
@@ -748,7 +754,7 @@ theorem toCall_none_safe (hbody : G.missingBodyFault = true) (name : Text) (fiel
 
 /-- C05 for a whole request: the argument tuple the user function is called with conforms to the declared
     parameter types -/
-theorem decodeRequest_ex (L : LeafLaws F) (hG : G.Good) (hb : G.binTextValidated = true)
+theorem decodeRequest_ex (L : LeafLaws F) (hG : G.Good) (hb : ExHyp G cfg)
     (hbody : G.missingBodyFault = true)
     (name ns : Text) (base : Option Text) (fields : Fields) (o : Occ)
     (hwf : wfTy (.obj name ns base fields o) = true) (h5 : c05Ty (.obj name ns base fields o) = true) (d : Doc) :
